@@ -11,7 +11,7 @@ def digitChar (d : Nat) : UInt8 := UInt8.ofNat (48 + d)
 
 /-- Decimal digits of a natural number, most significant first ("0" for zero). -/
 def natDigits (n : Nat) : Bytes :=
-  if h : n < 10 then [digitChar n] else natDigits (n / 10) ++ [digitChar (n % 10)]
+  if _h : n < 10 then [digitChar n] else natDigits (n / 10) ++ [digitChar (n % 10)]
 termination_by n
 decreasing_by omega
 
@@ -119,14 +119,15 @@ where
 
 def ofString (s : String) : Bytes := s.toUTF8.toList
 
-/-- strconv.ParseBool -/
+/-- strconv.ParseBool accepts exactly: 1 t T TRUE true True / 0 f F FALSE false False. -/
 def parseBool (s : Bytes) : Option Bool :=
-  if s = ofString "1" || s = ofString "t" || s = ofString "T" || s = ofString "TRUE"
-      || s = ofString "true" || s = ofString "True" then some true
-  else if s = ofString "0" || s = ofString "f" || s = ofString "F" || s = ofString "FALSE"
-      || s = ofString "false" || s = ofString "False" then some false
+  if s = [0x31] || s = [0x74] || s = [0x54] || s = [0x54, 0x52, 0x55, 0x45]
+      || s = [0x74, 0x72, 0x75, 0x65] || s = [0x54, 0x72, 0x75, 0x65] then some true
+  else if s = [0x30] || s = [0x66] || s = [0x46] || s = [0x46, 0x41, 0x4C, 0x53, 0x45]
+      || s = [0x66, 0x61, 0x6C, 0x73, 0x65] || s = [0x46, 0x61, 0x6C, 0x73, 0x65] then some false
   else none
 
-def formatBool (b : Bool) : Bytes := if b then ofString "true" else ofString "false"
+def formatBool (b : Bool) : Bytes :=
+  if b then [0x74, 0x72, 0x75, 0x65] else [0x66, 0x61, 0x6C, 0x73, 0x65]
 
 end Jl.IntText
